@@ -79,7 +79,8 @@ def all_paths(
         for path in paths:
             if path.is_file():
                 result.add(path)
-            else:
+            elif not path.is_symlink():
+                # (A symbolic link to a directory is not followed either.)
                 result |= {
                     child
                     for child in all_files
